@@ -28,10 +28,12 @@ TECHNIQUE = ("stateless model checking of the real engine: all linear extensions
 LEVEL_TEXT = ("For disjoint unions of 2-3 connected sub-graphs (<= 5 nodes quick / 6 thorough; plain components and context-bound "
               "datasources; <= 1-2 outcome deviations) the final broker (values, recorded failures, missing-dependency reports) and the "
               "invocation counts are shown identical for every linear extension, every engine tie-break in the single-pass / incremental "
-              "drivers, every get_subgraphs partition (no loss, no duplicate, dependency-closed), every pooled interleaving with <= 1 (quick) "
-              "/ 2 (thorough) preemptions for pool sizes 1-3 with own or shared broker, and real hash seeds 0..15 / 0..63.")
-LEVEL_NOTE = ("Scheduling points are Python line events in the engine functions of dr.py / plugins.py that touch per-run state plus harness "
-              "body / observer events; code between two points is atomic (GIL). Read-only registry helpers are not points; the registries are "
+              "drivers, every get_subgraphs partition (no loss, no duplicate, dependency-closed), every pooled interleaving with <= 1 preemption "
+              "(thorough: <= 2 for the three smallest families) for pool sizes 1-3 with own or shared broker, the evaluator's pooled "
+              "driver, and real hash seeds 0..15 / 0..63.")
+LEVEL_NOTE = ("Scheduling points are Python line events in the engine functions of dr.py / plugins.py / evaluators.py that touch per-run state, "
+              "every BYTECODE of the Broker methods / get_missing_dependencies / is_enabled (the accessors of shared state, where CPython can "
+              "switch threads inside one source line), plus harness body / observer events; code between two points is atomic (GIL). Read-only registry helpers are not points; the registries are "
               "checked unchanged around every pooled run. Preemption-bounded, not all interleavings. The hash-seed sweep is a bounded sample; "
               "the forced-hash enumeration is what covers 'every order'.")
 RULE = ("graph family x deviations x schedule dimension; states = distinct (case, schedule-prefix) nodes visited, transitions = scheduling "
@@ -40,7 +42,8 @@ RULE = ("graph family x deviations x schedule dimension; states = distinct (case
 ASSUMPTIONS = ["GIL: no interleaving inside one bytecode line", "deterministic component bodies",
                "scheduler granularity and preemption bound as stated"]
 BOUNDS = {"quick": {"max_nodes": 5, "max_dev": 1, "preemptions": 1, "pool_sizes": [1, 2, 3], "seeds": 16},
-          "thorough": {"max_nodes": 6, "max_dev": 2, "preemptions": 2, "pool_sizes": [1, 2, 3], "seeds": 64}}
+          "thorough": {"max_nodes": 6, "max_dev": 2, "preemptions": "1 everywhere; 2 for [one,one], [chain2,one], [join,one] at pool size 2",
+                       "pool_sizes": [1, 2, 3], "seeds": 64}}
 CAP_S = {"quick": 200, "thorough": 3000}
 
 # connected sub-graph shapes over local indices
@@ -145,8 +148,7 @@ def units(tier, seed):
 
 
 def _pool_devs(unit, tier):
-    """(bound, [deviation vectors]) of one pool configuration."""
-    b = BOUNDS[tier]
+    """[(bound, deviation vector)] of one pool configuration."""
     nodes, comps = compose(unit["family"], unit["t"], unit.get("ctx"))
     n = len(nodes)
     alts = ["skip", "error", "seed"] if unit["t"] == "plain" else ["error", "cpe"]
@@ -155,17 +157,15 @@ def _pool_devs(unit, tier):
         maxdev = 0
     if tier == "quick" and not (unit["shared"] and unit["family"] in (["one", "one"], ["chain2", "one"], ["join", "one"])):
         maxdev = 0              # quick: outcome deviations on three representative families with a shared broker
-    bound = b["preemptions"]
-    if tier == "thorough" and n > 3:
-        bound = 1               # bound 2 costs ~10^4-10^5 schedules per case: completed for the <= 3-node families
     out = []
     for devs in enumx.deviations(["value"] * n, [alts] * n, maxdev):
-        if bound == 2 and any(d != "value" for d in devs):
-            continue
         if not unit["shared"] and "seed" in devs:
             continue            # run_all creates the brokers itself when none is passed: nothing can be pre-seeded
-        out.append(devs)
-    return bound, out
+        out.append((1, devs))
+    # bound 2 costs 10^4-10^5 schedules per case at bytecode granularity: completed for the two smallest families
+    if tier == "thorough" and unit["size"] == 2 and unit["t"] == "plain" and unit["family"] in (["one", "one"], ["chain2", "one"], ["join", "one"]):
+        out.append((2, ["value"] * n))
+    return out
 
 
 def _expand_pool_units(us, tier):
@@ -174,8 +174,7 @@ def _expand_pool_units(us, tier):
         if u["part"] != "pool":
             out.append(u)
             continue
-        bound, devlist = _pool_devs(u, tier)
-        for devs in devlist:
+        for bound, devs in _pool_devs(u, tier):
             v = dict(u)
             v["devs"] = devs
             v["bound"] = bound
@@ -185,7 +184,7 @@ def _expand_pool_units(us, tier):
 
 def unit_weight(u):
     if u["part"] == "pool":
-        return 10 + sum(len(SUB[c]) for c in u["family"])
+        return (1000 if u.get("bound") == 2 else 10) + sum(len(SUB[c]) for c in u["family"])
     return 1
 
 
@@ -488,6 +487,7 @@ def check_pool(case, bound, res=None, max_executions=None):
         res.maxi("max_choice_points_in_one_execution", ex.max_points)
         res.maxi("max_preemptions_taken", ex.max_preemptions)
         res.maxi("preemption_bound_completed", bound if not ex.capped else bound - 1)
+        res.stat("cases_completed_at_bound_%d" % bound, 0 if ex.capped else 1)
         if ex.capped:
             res.exhaustive = False
             res.notes.append("pool exploration capped at %d executions for %r" % (ex.executions, case["family"]))
@@ -738,7 +738,7 @@ def run_unit(unit, tier):
         return res
     if part == "pool":
         nodes, comps = compose(unit["family"], unit["t"], unit.get("ctx"))
-        cap = 6000 if tier == "quick" else 150000
+        cap = 6000 if tier == "quick" else 400000
         case = {"kind": "pool", "family": unit["family"], "nodes": apply_devs(nodes, unit["devs"]), "size": unit["size"],
                 "shared": unit["shared"]}
         if unit.get("ctx"):
@@ -761,8 +761,8 @@ def run_unit(unit, tier):
         nodes = evaluator_cases()[unit["index"]]
         case = {"kind": "evaluator", "nodes": nodes, "size": unit["size"]}
         try:
-            vio, nexec, nout, ex = check_evaluator(case, 1 if (tier == "quick" or len(nodes) > 4) else 2, res,
-                                                   max_executions=4000 if tier == "quick" else 120000)
+            vio, nexec, nout, ex = check_evaluator(case, 1, res,
+                                                   max_executions=6000 if tier == "quick" else 400000)
         except Exception:
             import traceback
             vio, nexec, nout = [("harness:raises", "no exception", traceback.format_exc()[-900:], None)], 0, 0
